@@ -931,11 +931,10 @@ def expectedDropSites : List (String × String × Nat × String × String) := [
   ("ExtendsNode.Render", "check", 1, "Engine.Load", "overwritten"),
   ("IncludeNode.Render", "check", 1, "Engine.Load", "overwritten"),
   -- renderVariableString: interpolation of a literal `{{ … }}` left inside macro-body TEXT (not a print
-  -- node).  GetVariable as above; the ApplyFilter fall-back IS a swallow, reachable only for text the
-  -- tokenizer does not turn into a print node; the model reports such macro bodies as unsupported.
-  -- NOT VERIFIED (listed so that it stays visible).
+  -- node), reachable only for templates assembled from nodes.  GetVariable as above; the ApplyFilter
+  -- fall-back to the unfiltered value WAS a swallow (it also dropped an escape: C07) and is gone since
+  -- /repo 9bc43de — the filter's error is returned now.
   ("renderVariableString", "blank", 0, "RenderContext.GetVariable", "dropped"),
-  ("renderVariableString", "check", 0, "RenderContext.ApplyFilter", "swallowed"),
   ("renderVariableString", "blank", 1, "RenderContext.GetVariable", "dropped"),
   ("renderVariableString", "blank", 2, "RenderContext.GetVariable", "dropped"),
   ("ImportNode.Render", "check", 1, "Engine.Load", "overwritten"),
